@@ -8,7 +8,8 @@ RULE = ("requests are drawn from VERIF_SEED: method x dimension 1..6 x region fa
         "comparison was evaluated; counted once per (op, method, dimension, integrand family, region class)")
 CORR_ONLY = ["'within six standard errors' (standard error estimated from repeated fixed seeds): oracle on the implementation only",
              "Vegas integrates constants only to ~1e-8 relative (zero-variance first iteration), observed: known finding C14-vegas-constants; brute force and Miser to rounding",
-             "Vegas sampling and grid refinement (only its per-axis sample formula and the re-initialisation of the scalars are modelled)",
+             "Vegas sampling and grid refinement iterations as a whole (modelled and proved: per-axis sample formula and bin index, "
+             "Rebin with its grid invariant and read-set, re-initialisation of the scalars and of the arrays xi/dx/kg/d/di with init = 0)",
              "history independence of Vegas and brute force beyond the model (class D, bit-for-bit against a fresh process)"]
 ASSUMPTIONS = ["std::random_device::_M_getval is the only entropy source of the integrators (interposed by the harness with a fixed value)",
                "std::mt19937 / generate_canonical as in libstdc++ 12 (validated by C18)",
